@@ -152,6 +152,12 @@ fn disease_rows(rng: &mut Rng, f: &Facts, db: &str, recs: &[AnnF], ids: &[u32], 
             };
             rows.push(format!("{}:{}\t{}\t\t{}{}", db, d.id, d.name, hp(*t), tail));
         }
+        // a NOT row next to a positive row for the same disease and term (two curators disagree): the
+        // positive row still links; rows are shuffled, so the NOT row comes first half of the time
+        if rng.chance(1, 3) && !d.terms.is_empty() {
+            let t = *rng.pick(&d.terms);
+            rows.push(format!("{}:{}\t{}\tNOT\t{}\tPMID:2\tPCS", db, d.id, d.name, hp(t)));
+        }
         // NOT rows: for a term the disease is not annotated to (must not create a link)
         if rng.chance(1, 2) {
             let t = *rng.pick(ids);
